@@ -19,21 +19,21 @@ CLAIMED = {
  "C03": ("Lean 4 proof (worker-slot invariant; work conservation by an explicit internal schedule) + trace-replay correspondence", "At most N running bodies in every reachable model state; a ready job gets started by loop/worker steps alone whenever a worker is free (C03_work_conserving); in-flight counter oracle and wiring checks on the real scheduler.", "3 C03", S_NOTE),
  "C05": ("Lean 4 proof (progress/measure over the scheduler LTS) + trace-replay correspondence", "Model-level progress; watchdog oracle with double-dump confirmation on the real scheduler.", "3 C05", S_NOTE),
  "C06": ("Lean 4 proof (gate invariant ongoing<=N) + trace-replay correspondence", "Outstanding results never exceed cap(donec) in the model, so no worker blocks after the loop left; goroutine-quiescence oracle on the real scheduler.", "3 C06", S_NOTE),
- "C07": ("Lean 4 proof (fail-fast error accounting) + trace-replay correspondence", "nil/err soundness on the model; error-identity and invocation oracles on the real scheduler.", "3 C07", S_NOTE),
- "C08": ("Lean 4 proof (ContinueOnError accounting) + trace-replay correspondence", "error multiset/no sentinel on the model; multierr decomposition oracle on the real scheduler.", "3 C08", S_NOTE),
+ "C07": ('Lean 4 proof (fail-fast error accounting of the scheduler; closure epilogue; Parallel composition) + trace-replay correspondence + differential oracle', "nil ⇒ every job ended ok exactly once; a non-nil error is one real failure (job error, Goexit, ctx); nothing downstream of a failure starts; the closure returns Wait's error unchanged and writes Results only after nil (C07_results_untouched); for generated Parallel code the returned entry is a real function's own entry (C07_par_error). Error-identity and invocation oracles on the real scheduler and on generated programs.", "3 C07", S_NOTE),
+ "C08": ('Lean 4 proof (ContinueOnError accounting of the scheduler; Parallel composition) + trace-replay correspondence + differential oracle', 'error entries = the failing results the loop saw, no sentinel, every entry real; everything runnable ran; for generated Parallel code with ContinueOnError every task/element/entry function is called exactly once and the error has one entry per failing function (C08_par_errors, C08_par_functions_called). multierr decomposition oracle on the real scheduler and on generated programs.', "3 C08", S_NOTE),
  "C09": ("Lean 4 proof (no start after cancel; prompt return by an explicit workerEnd-free schedule) + trace-replay correspondence", "no started event after cancelled in any model log; from every cancelled state the caller finishes its Enqueues and returns without any running body ending (C09_prompt); structural cancellation oracles and receive-after-cancel trace rule on the real scheduler.", "3 C09", S_NOTE),
- "C02": ("Lean 4 proof (topological enqueue order, order-independence of the denotation, body semantics) + differential oracle on generated programs", "Enqueue order respects dependencies for every acyclic flow; the denoted values are invariant under listing order and concurrency; every generated program of the run is executed under all/sampled outcome assignments, 64-way concurrently, and compared with the model's reference execution.", "3 C02", D_NOTE),
- "C10": ("Lean 4 proof (job structure of generated Parallel code + scheduler theorems) + differential oracle on generated programs", "Element jobs are exactly (i, s[i]) resp. (k, m[k]) with own copies, End job depends on exactly its elements (so by C01 runs after all of them, never after a failure); sizes nil,0,1,2,17,300 executed on real generated code.", "3 C10", D_NOTE),
+ "C02": ('Lean 4 proof (composition of the scheduler LTS with the generated job bodies: schedule independence and refinement of the reference execution; topological enqueue order; order/concurrency independence of the denotation) + differential oracle on generated programs', 'For every accepted flow, every worker count and every scheduler run whose logged outcomes are those of the bodies: each body that ended did what it does in the sequential reference execution and wrote the reference values (C02_schedule_independent); if the flow returns nil every job ran exactly once with the reference arguments and the Results copy writes the reference values (C02_flow_refines_ideal); every generated program of the run is executed under all/sampled outcome assignments, 64-way concurrently, and compared with the same reference execution.', "3 C02", D_NOTE),
+ "C10": ('Lean 4 proof (job structure and bodies of generated Parallel code composed with the scheduler LTS) + differential oracle on generated programs', 'If Parallel returns nil the calls are a permutation of one call per task, element (i, s[i]), entry (k, m[k]) and End function (C10_calls_complete); an End function starts only after every element of its collection ended ok and never after a failure (C10_end_last, C10_end_never_after_failure); sizes nil,0,1,2,17,300 and collections-only all-empty directives executed on real generated code, expected calls computed from the same model definitions (parJobs, runPJob).', "3 C10", D_NOTE),
  "C14": ("Lean 4 proof (validation model accepts iff declaratively well-formed: BFS and memoised DFS sound and complete) + differential on accepted, mutated and unsupported-signature generated programs", "validateFlow p = [] <-> WellFormed p for every program of the model (no bound on tasks); the verdict and diagnostic category of the real cff for every well-formed and every mutated program (missing provider, duplicate provider, cycle at any distance/through predicates/unreachable, unused param/output, fallback without error, bad Invoke, unsupported predicate signature, FallbackWith arity, non-assignable element, instrument without emitter, ContinueOnError with End) is compared with the model's validate; accepted programs are additionally compiled and type-checked.", "3 C14", D_NOTE),
- "C15": ("Lean 4 proof (prologue is a sorted permutation) + differential oracle (every argument slot wrapped in a logging call)", "Each hoisted expression evaluated once in source order in the model; evaluation order, goroutine and before-first-task observed on real generated code for every slot; err capture is a recorded finding.", "3 C15", D_NOTE),
- "C20": ("Lean 4 proof (source-map adds only comments) + comment-stripped comparison of base and source-map output; differential execution for modifier mode", "Model-level equality of code tokens; byte/token comparison of both modes for every generated program and the repository's corpus.", "3 C20", D_NOTE),
- "C04": ("Lean 4 proof (recover structure of task bodies; scheduler error accounting) + differential oracle on generated programs", "No panic escapes a generated body and the job error is the PanicError of the panicking function, for every task shape/scenario/store of the model; every function kind x panic value class executed on real generated code with crash isolation.", "3 C04", D_NOTE),
- "C11": ("Lean 4 proof (gate and fallback semantics of the task body) + differential oracle on generated programs", "Gate, zero values on false predicate, fallback substitution on error/panic/predicate panic only, for every task of the model; all predicate x task outcome combinations on real generated code.", "3 C11", D_NOTE),
- "C13": ("Lean 4 proof (import-alias freshness) + differential oracle (go/types on every generated file, directive scan, exit status)", "Partial: alias synthesis proved; parse/type-check/no directive left/no tool panic decided per generated program; nested directives and package-name shadowing are recorded findings.", "3 C13", D_NOTE),
- "C16": ("Lean 4 proof (constraint inversion, output naming) + bounded-exhaustive differential against writeInvertedCffTag and the cff binary", "eval(rewrite e) sigma = eval e (flip cff sigma) for every expression/assignment; output naming injective and test-preserving; real function compared on all expressions up to the tier's size, AST diff and directory snapshots on generated programs.", "3 C16", D_NOTE),
- "C17": ("Lean 4 proof (sorting is permutation-invariant) + repeated fresh-process generation compared byte for byte", "Partial: the map-iteration sites that reach the output are sorted, proved order-independent; other sources are searched by repeated runs, -file alone vs package, both modes.", "3 C17", D_NOTE),
- "C18": ("Lean 4 proof (EmitterStack fan-out law; one-invocation event protocol) + differential oracle with recording emitters", "Stack law for every nesting; exactly one outcome event and one TaskDone per invocation in the model; per-emitter event sequences of real generated code checked for every scenario.", "3 C18", D_NOTE),
- "C12": ("Lean 4 proof (ownership discipline of the scheduler model) + race-detector runs of both harnesses", "Partial: only the loop writes loop state; invalid is written only before the hand-off; every hand-off is a channel operation of the model. 'Therefore race-free' rests on the Go memory model; the race detector searches real executions of scheduler scenarios and generated programs.", "3 C12", S_NOTE),
+ "C15": ('Lean 4 proof (prologue is a sorted permutation; capture hygiene) + regenerated per-site facts (every user expression printed through the hoisting printer) + differential oracle (every argument slot wrapped in a logging call)', 'Each hoisted expression evaluated once in source order in the model; an expression keeps its meaning unless it mentions err or an earlier hoisted name; every template action printing a user expression goes through `expr` (Tie facts regenerated from /repo); evaluation order, goroutine and before-first-task observed on real generated code for every slot incl. method-value receivers; err capture is a recorded finding.', "3 C15", D_NOTE),
+ "C20": ('Lean 4 proof (source-map adds only comments; magic markers) + regenerated per-site facts (source-map-only writes are comments) + comment-stripped comparison of base and source-map output; differential execution for modifier mode', 'Model-level equality of code tokens; every write guarded by sourceMapped is a comment (Tie facts regenerated from /repo); byte/token comparison of both modes for every generated program; base vs modifier builds executed on identical scenarios incl. types spelled two ways.', "3 C20", D_NOTE),
+ "C04": ('Lean 4 proof (recover structure of Flow and Parallel job bodies; scheduler error accounting) + differential oracle on generated programs', 'No panic escapes a generated Flow task/predicate body or a Parallel task/element/entry/End body, and the job error is the PanicError of the panicking function, for every shape/scenario/store of the model (C04_no_escape, C04_par_no_escape, C04_panic_error); every function kind x panic value class executed on real generated code with crash isolation.', "3 C04", D_NOTE),
+ "C11": ('Lean 4 proof (gate and fallback semantics of the task body; refinement of the reference execution) + differential oracle on generated programs', 'Gate, zero values on false predicate, fallback substitution on error/panic/predicate panic only, for every task of the model; by C02_flow_refines_ideal the real schedule calls exactly the functions the reference execution calls; all predicate x task outcome combinations on real generated code.', "3 C11", D_NOTE),
+ "C13": ('Lean 4 proof (import-alias freshness; directive elimination by the walker) + regenerated per-site facts (decide) + differential oracle (go/types on every generated file, directive scan, exit status)', 'Partial: alias synthesis and the walker (no directive left unless directives are nested) proved; no hard-coded package reference in template text and directive tables agree (Tie facts regenerated from /repo); parse/type-check/no directive left/no tool panic decided per generated program incl. unsupported-signature inputs; nested directives and package-name shadowing are recorded findings.', "3 C13", D_NOTE),
+ "C16": ('Lean 4 proof (constraint inversion, output naming, byte-level splice) + bounded-exhaustive differential against writeInvertedCffTag and the cff binary', "eval(rewrite e) sigma = eval e (flip cff sigma) for every expression/assignment; output naming injective and test-preserving; the splice keeps every byte outside the directive spans in order (C16_splice); real function compared on all expressions up to the tier's size, AST diff and directory snapshots on generated programs.", "3 C16", D_NOTE),
+ "C17": ('Lean 4 proof (sorting is permutation-invariant; magic token never reaches the output) + regenerated per-site facts (map iterations and randomness sources classified) + repeated fresh-process generation compared byte for byte', 'Partial: the map-iteration sites that reach the output are sorted, proved order-independent; the set of map iterations and random/clock sources of the generator is re-extracted from /repo and must equal the reviewed table; other sources are searched by repeated runs, -file alone vs package, both modes.', "3 C17", D_NOTE),
+ "C18": ('Lean 4 proof (EmitterStack fan-out law; one-invocation event protocol; closure epilogue) + differential oracle with recording emitters', 'Stack law for every nesting; exactly one outcome event and one TaskDone per invocation; exactly one FlowSuccess/FlowError then FlowDone, TaskSkipped exactly for the instrumented tasks that did not run (C18_directive_events, C18_skipped); per-emitter event sequences of real generated code checked for every scenario, the closing events against the same Gen.flowEnd.', "3 C18", D_NOTE),
+ "C12": ('Lean 4 proof (ownership discipline of the scheduler model and of the generated closure variables) + race-detector runs of both harnesses', "Partial: only the loop writes loop state; invalid is written only before the hand-off; every hand-off is a channel operation of the model; closure variables have a single writer which is among the reader's Dependencies (C12_var_ownership). 'Therefore race-free' rests on the Go memory model; the race detector searches real executions of scheduler scenarios and generated programs.", "3 C12", S_NOTE),
  "C19": ("Lean 4 proof (counter invariants) + trace-replay correspondence", "report equalities/bounds in every reachable model state; every emitted report of the real scheduler checked against them and against the model's counters.", "3 C19", S_NOTE),
 }
 NA_REASON = "check not built yet in this session (see DESIGN.md section 3 for the planned model and theorems); no claim is made"
